@@ -5,6 +5,39 @@ leaf with tag n(one) b(ool) i(nt) s(tr) l(ist) t(uple) f(loat).  `build` turns a
 """
 
 
+import collections
+import enum
+
+
+# value TYPES: instances of subclasses of the built-in leaf types (tagged specs {"$sub"-style} in cases: ["L"|"T"|"NT"|"I"|"S"|"F"|"E", v])
+class HostList(list):
+    pass
+
+
+class Pair(tuple):
+    pass
+
+
+Endpoint = collections.namedtuple("Endpoint", "host")
+
+
+class Port(int):
+    pass
+
+
+class Name(str):
+    pass
+
+
+class Ratio(float):
+    pass
+
+
+class Level(enum.IntEnum):
+    LOW = 1
+    HIGH = 2
+
+
 def enc_chars(s):
     return ".".join(str(ord(c)) for c in s)
 
@@ -22,9 +55,9 @@ def enc_leaf(v):
         return ["F"]
     if type(v) is int:
         return ["I%d" % v]
-    if type(v) is str:
+    if isinstance(v, str):  # (a str subclass is a str setting: overridden verbatim)
         return ["S" + enc_chars(v)]
-    if type(v) in (list, tuple):
+    if isinstance(v, (list, tuple)):  # (subclasses of list / tuple are list / tuple settings: rejected)
         return ["L%d" % len(v)] + ["E" + enc_chars(repr(x)) for x in v]
     if type(v) is float:
         return ["O1"]
@@ -62,6 +95,20 @@ def build(t):
     if isinstance(t, dict):
         return {k: build(v) for k, v in t.items()}
     tag, v = t
+    if tag == "L":
+        return HostList(v)
+    if tag == "T":
+        return Pair(v)
+    if tag == "NT":
+        return Endpoint(*v)
+    if tag == "I":
+        return Port(v)
+    if tag == "S":
+        return Name(v)
+    if tag == "F":
+        return Ratio(v)
+    if tag == "E":
+        return Level(v)
     if tag == "n":
         return None
     if tag == "t":
@@ -77,6 +124,17 @@ def tag(v):
     """Python data -> tagged tree"""
     if isinstance(v, dict):
         return {k: tag(x) for k, x in v.items()}
+    for cls, tg in ((HostList, "L"), (Endpoint, "NT"), (Pair, "T")):
+        if isinstance(v, cls):
+            return [tg, list(v)]
+    if isinstance(v, Level):
+        return ["E", int(v)]
+    if isinstance(v, Port):
+        return ["I", int(v)]
+    if isinstance(v, Name):
+        return ["S", str(v)]
+    if isinstance(v, Ratio):
+        return ["F", float(v)]
     if v is None:
         return ["n", None]
     if isinstance(v, bool):
@@ -99,7 +157,7 @@ def is_mapping(obj):
     method of that name on the instance)"""
     t = type(obj)
     return isinstance(obj, dict) or (all(hasattr(t, m) for m in ("__getitem__", "__iter__", "__len__"))
-                                     and not isinstance(obj, (str, bytes, list, tuple, set, frozenset)))
+                                     and not isinstance(obj, (str, bytes, list, tuple, set, frozenset, int, float, enum.Enum)))
 
 
 def plain(obj):
